@@ -491,7 +491,7 @@ Section P.
       intros x Hx t [Hlx [[Hty Hw] Hdm]]. apply Hx; assumption.
     Qed.
 
-    Lemma num_leaf B w b (g : N -> tval) :
+    Lemma num_leaf {C} B w b (g : N -> C) :
       (b < 2 ^ (8 * N.of_nat w))%N ->
       let q := fun bs => do '(n, r) <- read_num w bs; ROk (g n, r) in
       eats B q (le w b) /\ strict B q (le w b).
@@ -581,6 +581,208 @@ Section P.
   Proof.
     intros v t k Hign _ Hd8 Hg Hty Hdom Hlens Hk.
     destruct (refl_dec_strict tval_eqb Hign Hd8 v t (S k) (good_ty_wfz t Hg) Hty Hdom Hlens) as [_ Hst].
+    apply Hst; [exact Hk|lia].
+  Qed.
+
+  (* ---------- new_value ---------- *)
+  (* what NewValue does once the signature string is read *)
+  Definition dval_body (f : nat) (sg r : bytes) : res (dval * bytes) :=
+    match lookup (string_of_bytes sg) dispatch_table with
+    | DKind KBool => do '(n, r') <- read_num 1 r; ROk (DNum KBool (if (n =? 0)%N then 0%N else 1%N), r')
+    | DKind k => do '(n, r') <- read_num (dkind_width k) r; ROk (DNum k n, r')
+    | DString => do '(s, r') <- read_str r; ROk (DStr s, r')
+    | DListM =>
+        do '(n, r') <- read_num 4 r;
+        if (listValueMaxSize <? n)%N then RErr r'
+        else do '(l, r'') <- rep (dec_dval parse c f) n r'; ROk (DList l, r'')
+    | DRawD =>
+        do '(n, r') <- read_num 4 r;
+        if (rawValueMaxSize <? n)%N then RErr r'
+        else do '(b, r'') <- take_n (N.to_nat n) r'; ROk (DRaw b, r'')
+    | DVoidD => ROk (DVoid, r)
+    | DNested => dec_dval parse c f r
+    | DOther =>
+        let sg' := if String.eqb (string_of_bytes sg) "o" then bytes_of_string (print ty_ObjectReference) else sg in
+        match parse (string_of_bytes sg') with
+        | None => RErr r
+        | Some t => do '(d, r') <- sig_read parse c (S (List.length r)) t r; ROk (DOpaque sg' d, r')
+        end
+    end.
+
+  Lemma dec_dval_S f bs :
+    dec_dval parse c (S f) bs = (do '(sg, r) <- read_str bs; dval_body f sg r).
+  Proof. reflexivity. Qed.
+
+  Lemma hdr_both {A} B sg (K : bytes -> bytes -> res (A * bytes)) body :
+    (N.of_nat (List.length sg) <= MaxStringSize)%N ->
+    eats (B - 4) (K sg) body /\ strict (B - 4) (K sg) body ->
+    let p := fun bs => do '(s, r) <- read_str bs; K s r in
+    eats B p (enc_str sg ++ body) /\ strict B p (enc_str sg ++ body).
+  Proof.
+    intros Hs [He Hst] p. subst p. split.
+    - intros rest Hlen. cbv beta. rewrite <- app_assoc, (read_str_enc sg _ Hs). cbn [bind].
+      apply He. rewrite <- app_assoc, app_length, enc_str_length in Hlen. lia.
+    - intros k Hk HB. cbv beta.
+      destruct (read_str_trunc B sg body k Hs Hk HB) as [Hf|[Hge [Hk' Hr]]].
+      + apply fails_bind. exact Hf.
+      + rewrite Hr. cbn [bind]. rewrite enc_str_length in Hge, Hk' |- *. apply Hst; [exact Hk'|lia].
+  Qed.
+
+  Lemma enc_dval_len v : 4 <= List.length (enc_dval v).
+  Proof.
+    destruct v as [k b|s|l|b| |sg d]; cbn [enc_dval]; unfold sig_bytes;
+      rewrite ?app_length, enc_str_length; lia.
+  Qed.
+
+  Lemma dval_body_num f k r :
+    dval_body f (bytes_of_string (dkind_letter k)) r =
+    (do '(n, r') <- read_num (dkind_width k) r;
+     ROk (DNum k (match k with KBool => if (n =? 0)%N then 0%N else 1%N | _ => n end), r')).
+  Proof. unfold dval_body. rewrite string_of_bytes_of_string. destruct k; reflexivity. Qed.
+
+  Lemma dval_body_str f r :
+    dval_body f (bytes_of_string "s") r = (do '(s, r') <- read_str r; ROk (DStr s, r')).
+  Proof. reflexivity. Qed.
+
+  Lemma dval_body_list f r :
+    dval_body f (bytes_of_string "[m]") r =
+    (do '(n, r') <- read_num 4 r;
+     if (listValueMaxSize <? n)%N then RErr r'
+     else do '(l, r'') <- rep (dec_dval parse c f) n r'; ROk (DList l, r'')).
+  Proof. reflexivity. Qed.
+
+  Lemma dval_body_raw f r :
+    dval_body f (bytes_of_string "r") r =
+    (do '(n, r') <- read_num 4 r;
+     if (rawValueMaxSize <? n)%N then RErr r'
+     else do '(b, r'') <- take_n (N.to_nat n) r'; ROk (DRaw b, r'')).
+  Proof. reflexivity. Qed.
+
+  Lemma dval_body_void f r : dval_body f (bytes_of_string "v") r = ROk (DVoid, r).
+  Proof. reflexivity. Qed.
+
+  Lemma dval_body_other f t r :
+    lookup (print t) dispatch_table = DOther -> print t <> "o"%string -> wf_ty t = true ->
+    dval_body f (bytes_of_string (print t)) r =
+    (do '(d, r') <- sig_read parse c (S (List.length r)) t r;
+     ROk (DOpaque (bytes_of_string (print t)) d, r')).
+  Proof.
+    intros Hlk Hno Hwf. unfold dval_body. rewrite string_of_bytes_of_string, Hlk.
+    replace (String.eqb (print t) "o") with false by (symmetry; apply String.eqb_neq; exact Hno).
+    rewrite string_of_bytes_of_string, (parse_print t Hwf). reflexivity.
+  Qed.
+
+  Lemma dval_counted B (p : bytes -> res (dval * bytes)) n es :
+    n = N.of_nat (List.length es) -> (n <= listValueMaxSize)%N -> Forall (elem_ok B p) es ->
+    let q := fun r =>
+      do '(m, r') <- read_num 4 r;
+      if (listValueMaxSize <? m)%N then RErr r'
+      else do '(l, r'') <- rep p m r'; ROk (DList l, r'') in
+    eats B q (enc_u32 n ++ concat es) /\ strict B q (enc_u32 n ++ concat es).
+  Proof.
+    intros Hn Hle Hes q. subst q.
+    assert (Hlt : (n < 2 ^ 32)%N)
+      by (unfold listValueMaxSize in Hle; change (2 ^ 32)%N with 4294967296%N; lia).
+    assert (Hbig : (listValueMaxSize <? n)%N = false) by (apply N.ltb_ge; exact Hle).
+    split.
+    - intros rest Hlen. cbv beta. rewrite <- app_assoc, (read_u32_enc n _ Hlt). cbn [bind]. rewrite Hbig.
+      destruct (rep_eats B p es Hes rest) as [xs Hxs].
+      { rewrite !app_length in Hlen. rewrite app_length. lia. }
+      subst n. rewrite Hxs. cbn [bind]. eexists. reflexivity.
+    - intros k Hk HB. cbv beta.
+      destruct (read_u32_trunc n _ k Hlt Hk) as [[Hlt4 Hr]|[Hge [Hk' Hr]]];
+        rewrite Hr; cbn [bind]; [apply fails_err|]. rewrite Hbig.
+      apply fails_bind. subst n. apply (rep_strict B p es Hes); [exact Hk'|lia].
+  Qed.
+
+  Lemma dval_raw B b :
+    (N.of_nat (List.length b) <= rawValueMaxSize)%N ->
+    let q := fun r =>
+      do '(m, r') <- read_num 4 r;
+      if (rawValueMaxSize <? m)%N then RErr r'
+      else do '(b', r'') <- take_n (N.to_nat m) r'; ROk (DRaw b', r'') in
+    eats B q (enc_u32 (N.of_nat (List.length b)) ++ b) /\
+    strict B q (enc_u32 (N.of_nat (List.length b)) ++ b).
+  Proof.
+    intros Hle q. subst q.
+    assert (Hlt : (N.of_nat (List.length b) < 2 ^ 32)%N)
+      by (unfold rawValueMaxSize in Hle; change (2 ^ 32)%N with 4294967296%N; lia).
+    assert (Hbig : (rawValueMaxSize <? N.of_nat (List.length b))%N = false) by (apply N.ltb_ge; exact Hle).
+    split.
+    - intros rest Hlen. cbv beta. rewrite <- app_assoc, (read_u32_enc _ _ Hlt). cbn [bind]. rewrite Hbig.
+      rewrite Nat2N.id, take_n_app. cbn [bind]. eexists. reflexivity.
+    - intros k Hk HB. cbv beta.
+      destruct (read_u32_trunc _ _ k Hlt Hk) as [[Hlt4 Hr]|[Hge [Hk' Hr]]];
+        rewrite Hr; cbn [bind]; [apply fails_err|]. rewrite Hbig.
+      apply fails_bind. rewrite Nat2N.id, take_n_fail; [apply fails_err|]. rewrite firstn_length. lia.
+  Qed.
+
+  Lemma short_sig s :
+    String.length s <= 3 -> (N.of_nat (List.length (bytes_of_string s)) <= MaxStringSize)%N.
+  Proof. intro Hs. rewrite length_bytes_of_string. unfold MaxStringSize. lia. Qed.
+
+  Lemma vacuous0 {A} (p : bytes -> res (A * bytes)) e : eats 0 p e /\ strict 0 p e.
+  Proof. split; [intros rest Hlen|intros k Hk HB]; lia. Qed.
+
+  Section ValueStrict.
+    Hypothesis Hdrop : string_reader_drops_err c = false.
+
+    (* fuel at least the bound on the input length is enough: every level of nesting
+       consumes its signature *)
+    Definition DQ (v : dval) : Prop :=
+      wf_dval v -> forall f B, B <= f ->
+        eats B (dec_dval parse c f) (enc_dval v) /\ strict B (dec_dval parse c f) (enc_dval v).
+
+    Lemma dec_dval_strict : forall v, DQ v.
+    Proof.
+      induction v as [k b|s|l IH|b| |sg d] using dval_ind2; intros Hwf f B HBf;
+        (destruct f as [|f]; [replace B with 0 by lia; apply vacuous0|]);
+        apply (both_ext B _ _ _ (dec_dval_S f)).
+      - inversion Hwf as [k' b' Hb Hbool| | | | |]; subst. cbn [enc_dval]. unfold sig_bytes.
+        apply hdr_both; [apply short_sig; destruct k; cbn; lia|].
+        apply (both_ext _ _ _ _ (dval_body_num f k)).
+        exact (num_leaf (B - 4) (dkind_width k) b _ Hb).
+      - inversion Hwf as [|s' Hs| | | |]; subst. cbn [enc_dval]. unfold sig_bytes.
+        apply hdr_both; [apply short_sig; cbn; lia|].
+        apply (both_ext _ _ _ _ (dval_body_str f)). split.
+        + apply (eats_map _ read_str DStr). apply (exact_eats _ read_str s). apply read_str_exact. exact Hs.
+        + apply (strict_map _ read_str DStr). apply read_str_strict. exact Hs.
+      - inversion Hwf as [| |l' Hlen HF| | |]; subst. cbn [enc_dval]. unfold sig_bytes.
+        rewrite flat_map_concat_map.
+        apply hdr_both; [apply short_sig; cbn; lia|].
+        apply (both_ext _ _ _ _ (dval_body_list f)).
+        refine (dval_counted (B - 4) (dec_dval parse c f) _ (map enc_dval l) _ Hlen _);
+          [now rewrite map_length|].
+        apply Forall_map. apply Forall_forall. intros x Hin. rewrite Forall_forall in IH, HF.
+        destruct (IH x Hin (HF x Hin) f (B - 4)) as [He Hs]; [lia|].
+        split; [exact He|split; [exact Hs|]].
+        pose proof (enc_dval_len x) as Hx. lia.
+      - inversion Hwf as [| | |b' Hlen| |]; subst. cbn [enc_dval]. unfold sig_bytes.
+        apply hdr_both; [apply short_sig; cbn; lia|].
+        apply (both_ext _ _ _ _ (dval_body_raw f)).
+        exact (dval_raw (B - 4) b Hlen).
+      - cbn [enc_dval]. unfold sig_bytes. rewrite <- (app_nil_r (enc_str (bytes_of_string "v"))).
+        apply hdr_both; [apply short_sig; cbn; lia|].
+        apply (both_ext _ _ _ _ (dval_body_void f)). split.
+        + intros rest Hlen. exists DVoid. reflexivity.
+        + intros k Hk HB. cbn in Hk. lia.
+      - inversion Hwf as [| | | | |t v Hg Hlk Hno Hlen Hty]; subst. cbn [enc_dval].
+        apply hdr_both; [rewrite length_bytes_of_string; exact Hlen|].
+        apply (both_ext _ _ _ _ (fun r => dval_body_other f t r Hlk Hno (good_ty_wf t Hg))). split.
+        + intros rest Hlen'.
+          destruct (sig_read_strict Hdrop v t (S (List.length (spec_enc v ++ rest)))
+                      (S (List.length (spec_enc v ++ rest))) (good_ty_wfz t Hg) Hty) as [He _]; [lia|].
+          destruct (He rest) as [x Hx]; [lia|]. rewrite Hx. cbn [bind]. eexists. reflexivity.
+        + intros k Hk HB. apply fails_bind. rewrite (firstn_len_lt k _ Hk).
+          apply (sig_read_prefix_gen Hdrop); [exact Hg|exact Hty|lia|exact Hk].
+    Qed.
+  End ValueStrict.
+
+  Theorem new_value_prefix : forall v k, string_reader_drops_err c = false -> wf_dval v ->
+    k < List.length (enc_dval v) -> fails (new_value parse c (firstn k (enc_dval v))).
+  Proof.
+    intros v k Hdrop Hwf Hk. unfold new_value. rewrite (firstn_len_lt k _ Hk).
+    destruct (dec_dval_strict Hdrop v Hwf (S k) (S k) (le_n _)) as [_ Hst].
     apply Hst; [exact Hk|lia].
   Qed.
 End P.
